@@ -110,6 +110,15 @@ class EvalMixin(CallMixin):
         if kind == "const":
             cm, ce = obj
             v = self.const_value(cm, ce)
+            if isinstance(v, (dict, list, set)):
+                # a mutable module-level object: one shared instance per run (writes must persist)
+                key = repo.canon(target)
+                for q2 in (qual, key, target):
+                    if q2 in self.heap:
+                        return self.heap[q2]
+                self.heap[qual] = v
+                self.heap[key] = v
+                return v
             return v if v is not NotImplemented else Sym(repo.canon(target))
         return Sym(target)
 
